@@ -36,6 +36,64 @@ CHECKS = {
              'nesting beyond the recursion limit are open cells (totality only). Hangs are '
              'detected by a 5 s x3 wall-clock rule on templates.',
         design='4/C02'),
+    'C07': dict(
+        technique='stateful property-based testing under a virtual clock: generated peer timing '
+                  'profiles and deadline-relative clock steps, timeline oracle',
+        text='Generated histories over a settings grid (fractional, equal, grace), 1-4 sessions '
+             'with PONG delays {0, T/2, T-e, T, T+e, 2T, never}, sends and clock steps placed just '
+             'before/at/after each server deadline; oracle: PINGs exactly at open+I and PONG+I, '
+             'timely peers never dropped, ping timeout only for a PING outstanding more than T, '
+             'silent peers dropped by open+I+3T (monitor on) and at the first send after the '
+             'deadline, no poll held beyond I+T. Liveness "never" is checked up to the history '
+             'horizon only.',
+        note=KERNEL_NOTE + ' A PONG exactly at the deadline coincides with other I+T timeouts: '
+             'open cell for the live-peer clause.', design='4/C07'),
+    'C13': dict(
+        technique=PBT + 'a reference allow-set; metamorphic twin request without the Origin header',
+        text='Generated (configuration form, credentials, Host/scheme/X-Forwarded-*, Origin incl. '
+             '11 near-miss mutations of each allowed origin, request kind, server) on fresh worlds '
+             'holding a live session with a queued message; refused origins must get 400 / no '
+             'WebSocket, no event, queue untouched; allowed origins behave like the twin without '
+             'the header; CORS headers never over-grant.',
+        note=KERNEL_NOTE + ' ASGI: with X-Forwarded-Proto the own-scheme origin is an open cell.',
+        design='4/C13'),
+    'C14': dict(
+        technique=PBT + 'boundary-value generation around every limit, instrumented body reader',
+        text='Generated (limit, carrier: POST / established WebSocket / handshake frames, length '
+             'in limit-2..limit+2, 0, 1, 10x, declared vs actual length, chunking, packet count '
+             '0..18) on fresh worlds; oracle: nothing oversize reaches a handler, reads bounded by '
+             'min(declared, limit) (WSGI read sizes; ASGI receive() calls), exact acceptance at '
+             'the limit, oversize ends the session, <=16 packets dispatched.',
+        note=KERNEL_NOTE + ' Exactness asserted for ASCII text and bytes only.', design='4/C14'),
+    'C15': dict(
+        technique='stateful property-based testing with raw/malformed request generation; gateway '
+                  'contract validators and a virtual-time completion bound',
+        text='Generated histories mixing normal traffic with raw requests (any method, garbage '
+             'queries, JSONP, Origin, partial upgrade headers, malformed bodies and '
+             'Content-Length) and send/disconnect calls in every state; oracle: WSGI/ASGI contract '
+             'validators, status in {200,400,401,405}, no escaped exception, nothing pending '
+             'beyond I+T+1 at the end. Known findings F7/F8/F22 (disconnect blocks) are reported '
+             'as KNOWN-FINDING by signature.',
+        note=KERNEL_NOTE + ' API calls issued inside an unsettled step are counted, not judged.',
+        design='4/C15'),
+    'C16': dict(
+        technique='stateful (model-based) property-based testing: model dict of live sessions and '
+                  'saved user data vs the real server',
+        text='Generated long histories with up to 5 sessions, rejected opens, every end cause, '
+             'vanishing clients, session API calls on live/dead/rejected/foreign ids, many monitor '
+             'sweeps; oracle: dead ids inert (KeyError / silent send / nothing delivered), user '
+             'data agrees with the model, table == live set after drain (monitor on).',
+        note=KERNEL_NOTE + ' Reads server.sockets for the final table check.', design='4/C16'),
+    'C18': dict(
+        technique='differential property-based testing: one generated history replayed against '
+                  'both server implementations under the same clock script',
+        text='Generated settled histories over the union alphabet, executed on the threaded and '
+             'the asyncio server; compared: per-session event logs and reasons, delivered messages '
+             'and transport, status of explicit requests answered inside their step, '
+             'transport()/liveness after every step; sessions are compared until a silence-caused '
+             'end becomes possible.',
+        note=KERNEL_NOTE + ' disconnect() of all sessions is steered around (known finding F7).',
+        design='4/C18'),
     'C11': dict(
         technique='enumeration of the configuration grid x handler outcomes on fresh servers, '
                   'model oracle; behavioural confirmation of advertised upgrades',
